@@ -3,10 +3,67 @@ Only the property text and the worktree path go in; nothing from /verif."""
 import json, sys
 pid = sys.argv[1]
 wt = sys.argv[2] if len(sys.argv) > 2 else '/tmp/seed/' + pid
+wave = sys.argv[3] if len(sys.argv) > 3 else ''
+# Wave 4 (seeds G/H): to spread the changes over the code, each agent is told WHERE in the anchored
+# code its two changes must live (regions taken from the property's own anchors) - still nothing
+# from /verif about what the checks do.
+FOCUS = {
+ 'C01': ('the Set/TreeSet mutators and in-place operators (SetTemplate.c, TreeSetTemplate.c) or the leaf-level code of BucketTemplate.c (standalone Bucket/Set, pop/popitem/setdefault/update paths) - NOT the tree deletion path',
+         'the pure-Python leaf classes and mixins of _base.py (Bucket/Set: _set, _del, setdefault, pop, popitem, update, _MutableSetMixin in-place operators) or _datatypes.py - NOT _Tree._del'),
+ 'C02': ('leaf-level range code (Bucket_findRangeEnd, Bucket_rangeSearch, bucket minKey/maxKey) or BTreeItems_slice / negative-index handling / BTreeItems length computation in BTreeItemsTemplate.c, or BTree_maxminKey',
+         'pure-Python minKey/maxKey, _range of leaves, or _TreeItems __len__/__getitem__/slicing in _base.py'),
+ 'C03': ('the split code (bucket_split, BTree_split, BTree_split_root, BTree_grow) or the too-big tests / _max_*_size lookup incl. subclasses',
+         'pure-Python _grow/_split/_split_root, the size-limit logic, or update()/clear() of trees'),
+ 'C04': ('change notification in set kinds (SetTemplate.c / TreeSetTemplate.c), bucket split/clear/pop paths, or BTree_getstate/bucket_getstate',
+         'pure-Python Set/TreeSet/Bucket change notification (_p_changed), clear(), pop/popitem/setdefault, or __getstate__ of _Tree'),
+ 'C05': ('BTreeItemsTemplate.c (sequence/iterator code), BTree_length_or_nonzero, BTree_maxminKey, bucket-level use/unuse bracketing in BucketTemplate.c, or TreeSet/Set specific entry points',
+         'a second, different C site: SetOpTemplate.c / MergeTemplate.c cursors, PreviousBucket, _bucket_clear/_BTree_clear/_p_deactivate, or an error path (bad key, missing key) of a mutator'),
+ 'C06': ('SetTemplate.c set_setstate/getstate, bucket_getstate/_bucket_setstate value handling, or the `next` handling of leaf states',
+         'pure-Python __getstate__/__setstate__ of Set/Bucket/_Tree, __reduce__/_fix_pickle/_module_builder class naming'),
+ 'C07': ('MergeTemplate.c for SETS (the set branches of bucket_merge) or the tree wrappers get_bucket_state/BTree__p_resolveConflict, or handling of None/empty states',
+         'pure-Python Set._p_resolveConflict or _Tree._p_resolveConflict (wrapping/unwrapping the embedded leaf state), or the merge_error reason codes'),
+ 'C08': ('the C deletion path / TreeSet path / clear path with respect to PER_READCURRENT and registration, or bucket _p_resolveConflict entry (BucketTemplate.c:1640-1700)',
+         'pure-Python _Tree._del/_set/clear read-dependency declarations or Set/Bucket _p_resolveConflict successor-link test'),
+ 'C09': ('value conversion macros (intvaluemacros.h, floatvaluemacros.h), _fsBTree.c, or the Set/TreeSet entry points of the C code',
+         'pure-Python _datatypes.py conversions or the Set/TreeSet/Bucket methods of _base.py (argument handling, results, exception classes)'),
+ 'C10': ('in-place operators of SetTemplate.c/TreeSetTemplate.c, Generic_set_xor, copyRemaining, or the result-kind selection / value copying of set_operation',
+         'pure-Python _set_operation, _SetIteration, difference/union/intersection entry points, or _SetBase operators (__or__, __and__, __sub__, __xor__, in-place forms)'),
+ 'C11': ('the gather phase of multiunion_m (operand kinds, bucket_append, growth of the result vector) or quicksort/insertion sort in sorters.c',
+         'pure-Python multiunion in _base.py or Set.update/_set append path it uses'),
+ 'C12': ('the weighted entry points wunion_m/wintersection_m (weights, defaults, returned weight, None short-circuit) or MERGE macros of float/int value headers',
+         'pure-Python weightedUnion/weightedIntersection wrappers (weights, defaults, None handling, set+set case) or _datatypes.py multiplication/merge helpers'),
+ 'C13': ('the 64-bit conversion helpers longlong_convert/ulonglong_convert/..._as_object in BTreeModuleTemplate.c, the unsigned variants of intkeymacros.h/intvaluemacros.h, or _fsBTree.c',
+         'pure-Python _datatypes.py (range checks, bool/float handling, fs lengths, object key validation)'),
+ 'C14': ('SetOpTemplate.c / MergeTemplate.c / set in-place operators / update() error exits',
+         'pure-Python _set_operation/_SetIteration, Bucket._p_resolveConflict, update(), or leaf-level _set/_del with partial work before a comparison'),
+ 'C15': ('leaf-level iterators (Bucket/Set iteration, BucketTemplate.c nextBucket/getBucketEntry), BTreeItems_slice or negative index handling, or TreeSet iteration',
+         'pure-Python _TreeItems/_TreeIterator indexing/len caching or Bucket iterkeys/itervalues/iteritems'),
+ 'C16': ('SetOpTemplate.c / MergeTemplate.c / BTreeItemsTemplate.c reference handling (cursors, results, error exits)',
+         'a second, different C site: BucketTemplate.c setstate/getstate/pop/popitem/setdefault/update/byValue or TreeSetTemplate.c/SetTemplate.c in-place operators'),
+ 'C17': ('SetOpTemplate.c (set_operation result growth, multiunion gather), MergeTemplate.c merge_output, or sorters.c temporary buffer',
+         'a second, different C site: _BTree_setstate/_set_setstate/bucket_split value vector/BTree_split/clone or copy paths'),
+ 'C18': ('check.py cracking/classification (crack_btree, crack_bucket, type tables) or the Checker for Set/TreeSet/kinds',
+         'the _check() implementations: C BTree_check_inner for firstbucket/child-kind/size tests, or pure-Python _Tree._check'),
+ 'C19': ('Length.py __getstate__/__setstate__/__init__/__call__',
+         'Length.py change()/set() and persistence notification, or a subtle arithmetic slip in _p_resolveConflict that only shows for particular sign/size combinations'),
+}
 for l in open('/verif/properties.jsonl'):
     p = json.loads(l)
     if p['id'] == pid:
         break
+focus = ''
+if wave and pid in FOCUS:
+    fa, fb = FOCUS[pid]
+    focus = ("To spread independent reviewers over the code base, your two changes must live in these regions "
+             "(other regions are assigned to other reviewers):\n  change A: " + fa + "\n  change B: " + fb + "\n\n")
+if pid == 'C17':
+    focus += ("Allocation failures are injected with a build-time hook that is already in the source: when the extensions are built "
+              "with the environment variable BTREES_VERIF=1 (cd " + wt + " && BTREES_VERIF=1 /venv/bin/python setup.py -q build_ext -i -j8 --force) "
+              "every family module (e.g. BTrees._IIBTree) has a function _verif_alloc(fail1=-1, fail2=-1, sticky=0) - see "
+              "src/BTrees/BTreeModuleTemplate.c near BTree_Malloc: it returns the number of allocation calls counted since the last call, "
+              "resets the counter and arms the allocation calls with index fail1 / fail2 (0-based, counted from now) to return NULL. "
+              "Your demo.py should use it (and exit 2 if the hook is missing). The test suite must pass on the NORMAL build "
+              "(rebuild with --force and without BTREES_VERIF=1 before running the suite), the demo runs on the BTREES_VERIF=1 build.\n\n")
 print(f"""You are helping to evaluate a verification effort for the Python package zopefoundation/BTrees (ZODB's persistent BTree/Bucket/Set/TreeSet containers: a pure-Python implementation in src/BTrees/_base.py plus a C implementation built from templates src/BTrees/*Template.c, instantiated per key/value family such as IIBTree, OOBTree, LFBTree ...).
 
 You have your own scratch git worktree of the repository at {wt} (already built in place). Work ONLY inside {wt}. Do NOT read, list or touch /repo or /verif or any other directory under /tmp/seed - your work must be independent of them.
@@ -18,7 +75,7 @@ Here is a semantic property the package is supposed to satisfy:
   Quantified over: {p['quantifier']['text']}
   Code it is anchored in: {', '.join(p['anchors']['files'])}
 
-YOUR TASK: produce TWO different, realistic source changes to the package (call them A and B; different root causes, preferably one in the C templates/headers and one in the pure-Python code - or both C if the property is about the C extension only) each of which BREAKS this property, while
+{focus}YOUR TASK: produce TWO different, realistic source changes to the package (call them A and B; different root causes, preferably one in the C templates/headers and one in the pure-Python code - or both C if the property is about the C extension only) each of which BREAKS this property, while
   (1) the package still compiles, and
   (2) the package's existing test suite still passes completely (1468 passed), and
   (3) the breakage needs something SPECIFIC to manifest - a particular multi-step sequence of operations, a particular tree shape (e.g. after deletions, a multi-level tree, small max_leaf_size/max_internal_size), an unusual input or boundary value, a fault or eviction at a particular point, a particular interleaving, or two cooperating code sites that each look fine alone. NOT something ordinary use would expose at once (a change that breaks every insert is useless).
